@@ -96,10 +96,13 @@ type engine struct {
 	verifying     bool // harness-side verification reads in progress: not program I/O
 	layoutUnknown bool // flat-file layout no longer predictable (after a fault / crash)
 
-	faults   int  // number of faults injected so far (maintained by the hook owner)
-	inCommit bool // a commit (or close) is in flight
-	onAck    func()
-	note     func(string) // client-boundary log (crash child): commit-begin / commit-ack / ...
+	faults int // number of faults injected so far (maintained by the hook owner)
+	// rolledBack counts the resynchronisations after a failed close / reopen in which acknowledged but not yet durable
+	// commits were (legitimately) lost: the indices of states no longer equal the number of acknowledged commits
+	rolledBack int
+	inCommit   bool // a commit (or close) is in flight
+	onAck      func()
+	note       func(string) // client-boundary log (crash child): commit-begin / commit-ack / ...
 }
 
 func newEngine(rep reporter, r *mon.Rand, c cfg, dir string) *engine {
@@ -385,6 +388,9 @@ func (e *engine) resyncToPrefix(where string, pmin int) {
 		cls, det := diffDump(got, dumpModel(e.states[p], e.blocks), nil)
 		if cls == "" {
 			e.m.S = e.states[p]
+			if p+1 < len(e.states) {
+				e.rolledBack++
+			}
 			e.states = e.states[:p+1]
 			e.rep.Count("fault.resync", 1)
 			return
